@@ -115,4 +115,22 @@ AddSelfEvent(D, nd, e) ==
                     !.txpool = SubSeq(@, ntx + 1, Len(@)),
                     !.itxpool = SubSeq(@, nitx + 1, Len(@)) ]
 
+-----------------------------------------------------------------------------
+(* Bootstrap: the events of the database, in topological (insertion) order,  *)
+(* go through the normal insertion + consensus path into a fresh hashgraph;  *)
+(* the signature pool is processed after every batch of 100 and at the end;  *)
+(* then core.setHeadAndSeq.                                                   *)
+
+RECURSIVE BootLoop(_, _, _, _)
+BootLoop(D, h, es, k) ==
+    IF k > Len(es) THEN ProcessSigPool(h)
+    ELSE LET h1 == InsertAndRun(D, h, es[k])
+             h2 == IF k % 100 = 0 THEN ProcessSigPool(h1) ELSE h1
+         IN  BootLoop(D, h2, es, k + 1)
+
+BootNode(D, gen, me, es) ==
+    LET h == BootLoop(D, InitHG(gen, me), es, 1)
+        hd == LastFrom(h, me)
+    IN  [ InitCore(gen, me) EXCEPT !.h = h, !.head = hd, !.seq = IF hd = NoEv THEN -1 ELSE D[hd].i ]
+
 =============================================================================
